@@ -118,6 +118,10 @@ def fam_argv(seed, big):
         out.append({"id": "a-env%d" % i, "class": "env", "argv": vargv("e"), "env": [[hx(k), hx(v)] for k, v in e]})
         i += 1
     out.append({"id": "a-envnone", "class": "env", "argv": vargv("inherit")})
+    # the parent was itself started with an unusual environment block: with `env` unspecified the child gets exactly that
+    out.append({"id": "a-envraw", "class": "env", "argv": vargv("raw"),
+                "raw_environ": [hx("PLAIN=1"), hx("DUP=first"), hx("NOEQ"), hx("DUP=second"), hx(b"BYTES=\xff\xfe"), hx("EMPTY="),
+                                hx("=oddname"), hx("PATH=/usr/bin:/bin")]})
     # names differing only in case are different variables (each keeps its own last value)
     out.append({"id": "a-envcase", "class": "env", "argv": vargv("case"),
                 "env": [[hx("k"), hx("1")], [hx("K"), hx("2")], [hx("k"), hx("3")], [hx("Path"), hx("p")], [hx("PATH"), hx("/usr/bin")],
